@@ -89,7 +89,8 @@ theorem nia3_length (ik : Bytes) (c : W32) (b d : UInt8) (msg : Bytes) (len : Na
   unfold NIA3 genMac at h
   simp only at h
   split at h
-  · split at h
+  · unfold genMacFin at h
+    split at h
     · simp only [Outcome.ok.injEq] at h; subst h; rfl
     · simp at h
   · simp at h
